@@ -246,16 +246,29 @@ def devStoreFloatToInt (k : IK) (x : FV) : List String :=
       if (a = 2^63 ∧ (k = .int ∨ k = .i64)) ∨ (a = 2^64 ∧ (k = .uint ∨ k = .u64)) then ["store_2p63_wraps"] else []
     | _ => []
 
-/-- regions of the store path (Value.toReflectValue, used by slice/array/map writes) – predicates on (v, t) -/
+def isOk {α} : Res α → Bool | .ok _ => true | _ => false
+
+/-- regions of the store path (Value.toReflectValue, used by slice/array/map writes) – predicates on (v, t).
+    Since fix bb377a4 a failed conversion is a RangeError visible to the script (the former region
+    `store_error_is_go_panic` is gone); what remains are silent changes of value, rejections of representable
+    values, and the two genuine Go panics. -/
 def devStore (v : JV) (t : GT) : List String :=
   match t with
   | .num nt =>
     (match v with
      | .arr _ | .obj _ => []
      | .undef | .null | .bool _ | .str _ => ["store_coerces_non_number"]      -- ToNumber coercion instead of TypeError
-     | .num (.f32 _) => ["store_float32_value_go_panic"]                       -- Value.float64 has no float32 case
+     | .num (.f32 x) =>
+       -- the fraction guard (value.go:746) answers first for integer kinds; otherwise Value.float64 has no float32 case
+       (match nt with
+        | .i _ => if fracPositive x then [] else ["store_float32_value_go_panic"]
+        | _ => ["store_float32_value_go_panic"])
      | .num n =>
-       if isGoPanic (toReflectValue v t) then ["store_error_is_go_panic"]      -- the error is a plain Go error, panic(err)
+       if !isOk (toReflectValue v t) then
+         -- the store is rejected with RangeError; the only representable value that is rejected is ±Inf → float32
+         (match nt, n with
+          | .f32, .f64 x => if isInf x then ["store_inf_to_f32_rejected"] else []
+          | _, _ => [])
        else match nt, n with
          | .f64, .int _ i => if Spec.sameNumber n (ofInt i) then [] else ["store_float_rounds"]
          | .f32, _ => if Spec.sameNumber n (toF32 (Spec.asF64 n)) then [] else ["store_float_rounds"]
@@ -269,7 +282,7 @@ def devStore (v : JV) (t : GT) : List String :=
   | .bool | .str =>
     -- the fraction guard (value.go:746) runs for every non-float target kind, also bool and string
     (match v with
-     | .num (.f32 x) | .num (.f64 x) => if fracPositive x then ["store_error_is_go_panic"] else []
+     | .num (.f32 x) | .num (.f64 x) => if fracPositive x then ["store_fraction_guard_rejects_bool_string"] else []
      | _ => [])
   | _ => []
 
